@@ -55,11 +55,10 @@ Definition spec_b (s : store) : bool := truthful_b s && functional_b s.
 
 (** ---- scope and finding classes ------------------------------------------------ *)
 
+(** The only remaining finding class.  (The classes CCopyStale, CCopyReuse,
+    CMoveMaxUid and CRenameInbox of the first round are gone: those defects are
+    repaired and the operations are inside the positive theorems.) *)
 Inductive fclass :=
-| CCopyStale      (* COPY / UID COPY hand out MAX(uid)+1 and leave uid_next behind *)
-| CCopyReuse      (* COPY / UID COPY after the top UID was expunged: MAX(uid)+1 < uid_next, a used UID *)
-| CMoveMaxUid     (* Junk/NonJunk move (MoveMessageToMailbox): same allocation *)
-| CRenameInbox    (* RENAME INBOX x with messages: x starts with uid_next = 1 *)
 | CSameSecond.    (* a (name, UIDVALIDITY) pair used before is given out again *)
 
 Definition used_b (s : store) (n : str) (v : Z) : bool :=
@@ -77,19 +76,11 @@ Definition flat_step (s : store) (o : op) : bool :=
   | _ => true
   end.
 
-Definition copy_class (s : store) (dest : str) : fclass :=
-  match find_name s dest with
-  | Some d => if max_uid s (mb_id d) + 1 <? mb_next d then CCopyReuse else CCopyStale
-  | None => CCopyStale
-  end.
-
 Definition is_ok (r : result) : bool := match r with ROk => true | _ => false end.
 
 Definition step_class (s : store) (o : op) : option fclass :=
   let '(s', r) := step s o in
   match o with
-  | OUidCopy _ _ d | OCopy _ _ d => if gser s' =? gser s then None else Some (copy_class s d)
-  | OUidStore _ _ _ _ => if gser s' =? gser s then None else Some CMoveMaxUid
   | ODeliver f t =>
       match find_name s f with
       | Some _ => None
@@ -99,19 +90,13 @@ Definition step_class (s : store) (o : op) : option fclass :=
       if is_ok r && used_b s (trim_suffix n [SLASH]) t then Some CSameSecond else None
   | ORename a b t =>
       if negb (is_ok r) then None
-      else if is_inbox a then
-        match find_name s INBOX with
-        | Some ib => match links_in s (mb_id ib) with
-                     | _ :: _ => Some CRenameInbox
-                     | [] => if used_b s b t then Some CSameSecond else None
-                     end
-        | None => None
-        end
+      else if is_inbox a then (if used_b s b t then Some CSameSecond else None)
       else match find_name s a with
            | Some m => if used_b s b (mb_validity m) then Some CSameSecond else None
            | None => None
            end
-  | OAppend _ _ | OExpunge _ | OClose _ | ODelete _ => None
+  | OAppend _ _ | OUidCopy _ _ _ | OCopy _ _ _ | OUidStore _ _ _ _
+  | OExpunge _ | OClose _ | ODelete _ => None
   end.
 
 (** first step of a history that falls into a class: (index, class) *)
